@@ -25,6 +25,7 @@ def check(tier, seed):
     with C.WorkDir('C10') as wd:
         C.audit_sources()
         C.props_obligations(res, 'C10', wd)
+        C.tie_b_request(res, wd)
         mt, kt = R.message_table(), R.key_tables()
         sk = ','.join(str(k) for k in kt['signed']) or '-'
         rng = C.rng_for(seed, 'C10')
